@@ -4,15 +4,15 @@ import (
 	"bytes"
 	"context"
 	"crypto"
-	"encoding/json"
-	"encoding/pem"
-	"os/exec"
 	"crypto/tls"
 	"encoding/hex"
+	"encoding/json"
+	"encoding/pem"
 	"errors"
 	"fmt"
 	"net/http"
 	"os"
+	"os/exec"
 	"path/filepath"
 	"reflect"
 	"regexp"
@@ -85,7 +85,7 @@ func (w *recWatcher) fire(path string, lg zerolog.Logger) *panicInfo {
 type nopObserver struct{}
 
 func (nopObserver) Add(certificate.Supplier) {}
-func (nopObserver) Start() error              { return nil }
+func (nopObserver) Start() error             { return nil }
 
 type khRegistry struct{ holders []keyholder.KeyHolder }
 
@@ -728,6 +728,7 @@ func runIsolated(c *engine.Ctx, key, entry string, cs any, dir string) {
 	defer cancel()
 
 	cmd := exec.CommandContext(ctx, os.Args[0], "replay", rf)
+	cmd.Env = append(os.Environ(), envTmp+"="+dir)
 
 	var stdout, stderr bytes.Buffer
 
@@ -880,7 +881,7 @@ func replayKS(c *engine.Ctx, cs *KSCase) {
 		return
 	}
 
-	dir, err := os.MkdirTemp(filepath.Join(engine.VerifRoot, ".work"), "c19-replay-")
+	dir, err := scratchDir("c19-replay-")
 	if err != nil {
 		c.Infra("%v", err)
 
